@@ -1,8 +1,8 @@
 SPECIFICATION Spec
 VIEW View
 CONSTANTS D = 3
-  MaxPages = 10
-  MaxWriters = 5
+  MaxPages = 12
+  MaxWriters = 4
   MaxCbs = 0
   MVals = {"-"}
   CVals = {"-"}
